@@ -538,23 +538,24 @@ Proof.
 Qed.
 
 (* ---------- requests ---------- *)
-Definition action_ok (a : action) : Prop :=
+Definition action_ok0 (a : action) : Prop :=
   match a with
   | APlace _ _ _ (OLimit p s _ _ _) _ => 0 < p /\ 0 <= s
   | ACancel _ (Some x) => 0 <= x
   | AReplace _ price _ => 0 < price
   | _ => True
   end.
+Definition action_ok (a : action) : Prop := match a with AOn _ a' => action_ok0 a' | _ => action_ok0 a end.
 
 Lemma with_orders_I mid l os : Forall mktI l -> Forall ordI os -> Forall mktI (upd_market mid (fun m => set_orders m os) l).
 Proof. intros H Ho. apply Forall_upd_market; [exact H|]. intros m Hm. apply mktI_set_orders; assumption. Qed.
 
-Theorem request_I cf now st mid s a : simI s -> action_ok a -> simI (request cf now st mid s a).
+Theorem request0_I cf now st mid s a : simI s -> action_ok0 a -> simI (request0 cf now st mid s a).
 Proof.
-  intros HI Ha. unfold request. destruct (get_market mid (s_markets s)) as [m|] eqn:Em; [|exact HI].
+  intros HI Ha. unfold request0. destruct (get_market mid (s_markets s)) as [m|] eqn:Em; [|exact HI].
   pose proof (get_market_I s mid m HI Em) as Hm. pose proof Hm as (Hos & _).
   unfold simI in *.
-  destruct a as [name sel sd t mv|name red|name p|name price mv].
+  destruct a as [name sel sd t mv|name red|name p|name price mv|mid' a']; [| | | |exact HI].
   - destruct (negb (market_open m)); [exact HI|]. cbn [s_markets]. apply with_orders_I; [exact HI|].
     apply Forall_app. split; [exact Hos|]. constructor; [|constructor].
     apply ordI_set_live, ordI_set_status_keep, ordI_new_order. destruct t; try exact I. exact Ha.
@@ -610,6 +611,9 @@ Definition event_ok (sc : script) (n : Z) (e : event) : Prop :=
 Definition step_guard (tb : tiebreak) (cf : config) (s : sim) (e : event) : Prop :=
   s_aborted s = false ->
   match s_queue s with [] => True | _ => pending_guard tb cf (b_pt (ev_book e)) (ev_market e) s end.
+
+Theorem request_I cf now st mid s a : simI s -> action_ok a -> simI (request cf now st mid s a).
+Proof. intros HI Ha. unfold request. destruct a; apply request0_I; assumption. Qed.
 
 Lemma requests_I cf now st mid : forall acts s, simI s -> Forall action_ok acts -> simI (fold_left (request cf now st mid) acts s).
 Proof.
@@ -726,13 +730,15 @@ Proof.
   split; [|destruct (r_status r); try discriminate; congruence].
   rewrite forallb_forall in A. rewrite Forall_forall. intros x Hx. specialize (A x Hx). lia.
 Qed.
-Lemma action_b_sound a : action_b a = true -> action_ok a.
+Lemma action_b0_sound a : action_b0 a = true -> action_ok0 a.
 Proof.
-  destruct a as [name sel sd t mv|name red|name p|name price mv]; cbn; intros H; try exact I.
+  destruct a as [name sel sd t mv|name red|name p|name price mv|mid' a']; cbn; intros H; try exact I.
   - destruct t; try exact I. lia.
   - destruct red; [lia|exact I].
   - lia.
 Qed.
+Lemma action_b_sound a : action_b a = true -> action_ok a.
+Proof. unfold action_b, action_ok. destruct a; apply action_b0_sound. Qed.
 Lemma event_b_sound sc n e : event_b sc n e = true -> event_ok sc n e.
 Proof.
   unfold event_b, event_ok. intros H. apply andb_true_iff in H as [H1 H2]. split.
